@@ -221,6 +221,16 @@ func genProg(r *vl.Rng, idx int, stats map[string]int) Prog {
 	}
 	main.Lines = append(main.Lines, g.namespaces(fmt.Sprintf("p%d.main", idx))...)
 	main.Lines = append(main.Lines, g.constLines("M", 2+r.Intn(5))...)
+	if r.Chance(60) { // a map constant keyed by structs, some keys of equal content with different values
+		var es []string
+		for i, n := 0, 3+r.Intn(6); i < n; i++ {
+			es = append(es, fmt.Sprintf(`{"name": "k%d", "id": %d}: "v%d"`, i%3, i%3, i))
+		}
+		main.Lines = append(main.Lines, "struct MK { 1: string name, 2: i32 id }",
+			fmt.Sprintf("const map<MK,string> MDup = {%s}", strings.Join(es, ", ")))
+		stats["struct_key_map_consts"]++
+		stats["map_literal_entries"] += len(es)
+	}
 	for i, n := 0, 1+r.Intn(3); i < n; i++ {
 		en := fmt.Sprintf("E%d", i)
 		main.Lines = append(main.Lines, g.enumLine(en))
